@@ -1,5 +1,6 @@
 // C03 replayer (R): executes on the real asl::String what TLC printed from the specifications
 //   spec/ByteString.tla        {"hist":[calls],"exp":[[bytes of var 1],[bytes of var 2],..],"hz":[..],"cmp":c}   mutation histories
+//   spec/MC_ByteStringBig.tla  the same, histories that end in large single jumps of strings of 1 KiB and more
 //   spec/MC_ByteStringOps.tla  {"k":"ops","s":[..],"pats":[rows],"trimmed":..,"ws":..,"tabs":..,"sub":[..]}     pure operations
 //   spec/MC_IntText.tla        {"k":"int","w":32|64,"x":[limbs],"st":[signed text],"ut":[unsigned text]}
 //   spec/MC_ByteStringFmt.tla  {"k":"fmt","items":[..],"out":[..],"n0":[..]}                                     printf-style formats
@@ -92,6 +93,20 @@ static Outcome doHistory(const vj::Value& c)
 			s.resize(n);
 			for (int q = n0; q < n; q++) s[q] = (char)o["c"].i(); // the grown part is the caller's to write
 		}
+		else if (op == "assignRepeat")
+		{
+			// copy assignment into the existing buffer (resize(n, false)); the other spelling moves the temporary in
+			if (alt) s = String::repeat((char)o["c"].i(), n);
+			else { String t = String::repeat((char)o["c"].i(), n); s = t; }
+		}
+		else if (op == "appendRepeat")
+		{
+			String t = String::repeat((char)o["c"].i(), n);
+			if (step % 3 == 0) s += t; else if (step % 3 == 1) s << t; else s.append(*t, n);
+		}
+		else if (op == "assignN") { CBuf b(o["s"].bytes()); s.assign((const char*)b, n); }
+		else if (op == "appendN") { CBuf b(o["s"].bytes()); s.append((const char*)b, n); }
+		else if (op == "reserve") s.resize(n, true, false);
 		else if (op == "clear") s.clear();
 		else if (op == "fixAt") { s.data()[k] = 0; s.fix(); }
 		else if (op == "splitJoin") { String sep((const char*)CBuf(o["a"].bytes())); s = s.split(sep).join(sep); }
